@@ -101,7 +101,8 @@ SET_OPS = ('setcn2', 'setcn2m', 'setl0', 'setvel')
 
 
 def run_layer(case, layer, k=1.0):
-    """ops: ['evolve', t] | ['sett', t] | ['reset', indep] | ['read', wavelength] |
+    """ops: ['evolve', t] | ['sett', t] | ['reset', indep] | ['reset', False, 'none'] (infinite layer: evolve_until(None)) |
+    ['read', wavelength] |
     ['setcn2', c] | ['setcn2m', total] (through MultiLayerAtmosphere.Cn_squared) | ['setvel', [vx, vy]] |
     ['setl0', l, route] with route 'L0' (layer.L0 = l), 'outer_scale' (layer.outer_scale = l) or 'multi'
     (MultiLayerAtmosphere.outer_scale = l).
@@ -143,7 +144,10 @@ def run_layer(case, layer, k=1.0):
             elif op[0] == 'sett':
                 layer.t = op[1]
             elif op[0] == 'reset':
-                layer.reset(make_independent_realization=bool(op[1]))
+                if len(op) > 2 and op[2] == 'none':
+                    layer.evolve_until(None)        # infinite layer: documented nowhere, implemented as reset()
+                else:
+                    layer.reset(make_independent_realization=bool(op[1]))
             elif op[0] == 'read':
                 o['phase'] = np.array(layer.phase_for(op[1]).shaped, dtype=float)
                 o['phase1'] = np.array(layer.phase_for(1).shaped, dtype=float)
@@ -959,6 +963,8 @@ def gen_layer_case(rng, kind, big):
                 ops.append(['reset', bool(rng.random() < 0.15)])
             else:
                 ops.append(['reset', bool(rng.random() < 0.25)])
+            if kind == 'infinite' and not ops[-1][1] and len(ops) % 3 == 0:
+                ops[-1] = ['reset', False, 'none']      # the same reset through evolve_until(None)
     case['ops'] = ops
     return decorate(rng, case)
 
@@ -1122,6 +1128,7 @@ DIRECTED = [
                                                 ['evolve', 1.0], ['read', 1.0], ['reset', True], ['evolve', 2.0], ['read', 1.0], ['cdraw', 1],
                                                 ['reset', False], ['evolve', 2.0], ['read', 1.0]]), heap=True, seedobj=True),
     dict(_layer('infinite', 5, 7, [0.0, -0.25], [['evolve', 2.0], ['read', 1.0], ['reset', False], ['evolve', 2.0], ['read', 1.0]]), heap=True, ar=True),
+    _layer('infinite', 5, 6, [0.25, -0.25], [['evolve', 2.0], ['read', 1.0], ['reset', False, 'none'], ['read', 1.0], ['evolve', 2.0], ['read', 1.0]]),
     dict(_layer('infinite', 6, 4, [0.25, 0.25], [['evolve', 1.0], ['read', 0.5], ['setcn2', 2.0 ** -38], ['reset', False], ['evolve', 1.0], ['read', 2.0]]), ar=True),
     dict(_layer('infinite', 4, 6, [-0.25, 0.0], [['evolve', 3.0], ['read', 1.0]], interp=True), ar=True),
     # the finite layer's lazy noise and cached screen: parameter changes on the running layer
@@ -1198,6 +1205,7 @@ def handle(ctx, case, batch):
         ctx.count('%s:reads exactly on a multiple of the extent' % case['kind'], on)
         ctx.count('%s:resets' % case['kind'], nres)
         ctx.count('%s:independent resets' % case['kind'], sum(1 for op in case['ops'] if op[0] == 'reset' and op[1]))
+        ctx.count('%s:resets through evolve_until(None)' % case['kind'], sum(1 for op in case['ops'] if op[0] == 'reset' and len(op) > 2))
         if case['kind'] == 'infinite':
             ctx.count('infinite:interpolation %s' % ('on' if case['interp'] else 'off'))
             ctx.count('infinite:extrusions', sum(len(o['ext']) for o in obs))
